@@ -43,6 +43,7 @@ func runC16(c *Ctx) {
 	c.Rule("R16.2", 3, "validate before create; prepare before render")
 	c.Rule("R16.3", 5, "created paths derive from -out, the name and constant file names; -name override precedes generation")
 	c.Rule("R16.4", 8, "success message <=> nil error <=> exit 0")
+	c.Rule("R16.6", 2, "a step that writes files of the package does not return success before it has rendered them")
 	c.Rule("R16.5", 4, "identifier rule: Go identifier syntax, all keywords reserved")
 
 	main := c.mainFunc()
@@ -220,6 +221,26 @@ func runC16(c *Ctx) {
 				}
 			}
 		})
+		// steps kept as function or method values (a table of stages handed to a helper) are dynamic dispatch too
+		for _, b := range fn.Blocks {
+			for _, in := range b.Instrs {
+				if _, isMC := in.(*ssa.MakeClosure); isMC {
+					dynamicCalls = true
+				}
+				if call, isCall := in.(ssa.CallInstruction); isCall {
+					for _, a := range call.Common().Args {
+						if _, isFn := a.(*ssa.Function); isFn {
+							dynamicCalls = true
+						}
+					}
+				}
+				if st, isStore := in.(*ssa.Store); isStore {
+					if _, isFn := st.Val.(*ssa.Function); isFn {
+						dynamicCalls = true
+					}
+				}
+			}
+		}
 		if prepErr == nil && dynamicCalls {
 			c.Undecided("R16.2", "Generate: the preparation step (creates the directory, creates no file) is identified", gen.Pos(), "Generate runs its steps through function values: which call is the preparation step, and what it dominates, was not followed")
 		} else if c.Check("R16.2", "Generate: the preparation step (creates the directory, creates no file) is identified", gen.Pos(), prepErr != nil, "no callee of Generate reaches os.Mkdir without reaching os.OpenFile") {
@@ -299,6 +320,7 @@ func runC16(c *Ctx) {
 	checkRun(c)
 	// ---- main
 	checkMainExit(c, "R16.4")
+	checkNoSuccessBeforeRender(c, "R16.6")
 }
 
 func errorIgnorable(name string) bool {
@@ -734,4 +756,179 @@ func partsUnknown(parts []string) bool {
 		}
 	}
 	return len(parts) == 0
+}
+
+
+// checkNoSuccessBeforeRender (R16.6): in every function of the generator that renders files (calls the rendering function, directly
+// or through helpers of the package), no return statement placed before the first rendering statement may report success. Such a
+// return leaves the package without those files while Generate, Run and the exit status say that everything was written.
+func checkNoSuccessBeforeRender(c *Ctx, rule string) {
+	gp := c.Pkg("internal/generate/golang")
+	if gp == nil {
+		c.Lost(rule, "package internal/generate/golang")
+		return
+	}
+	info := gp.TypesInfo
+	decls := map[types.Object]*ast.FuncDecl{}
+	AllFuncDecls(gp, func(fd *ast.FuncDecl) {
+		if fd.Body != nil {
+			decls[info.Defs[fd.Name]] = fd
+		}
+	})
+	// the rendering function: executes a template
+	renders := map[types.Object]bool{}
+	for o, fd := range decls {
+		ast.Inspect(fd.Body, func(n ast.Node) bool {
+			call, ok := n.(*ast.CallExpr)
+			if !ok {
+				return true
+			}
+			if fn, ok := objOf(info, call.Fun).(*types.Func); ok && fn.Pkg() != nil && fn.Pkg().Path() == "text/template" && (fn.Name() == "Execute" || fn.Name() == "ExecuteTemplate") {
+				renders[o] = true
+			}
+			return true
+		})
+	}
+	if len(renders) == 0 {
+		c.Lost(rule, "the function that executes a template")
+		return
+	}
+	base := map[types.Object]bool{}
+	for o := range renders {
+		base[o] = true
+	}
+	callsRendering := func(n ast.Node) bool {
+		found := false
+		ast.Inspect(n, func(m ast.Node) bool {
+			if _, isLit := m.(*ast.FuncLit); isLit {
+				return false
+			}
+			if call, ok := m.(*ast.CallExpr); ok {
+				if o := objOf(info, call.Fun); o != nil && renders[o] {
+					found = true
+				}
+			}
+			return !found
+		})
+		return found
+	}
+	for changed := true; changed; {
+		changed = false
+		for o, fd := range decls {
+			if !renders[o] && callsRendering(fd.Body) {
+				renders[o] = true
+				changed = true
+			}
+		}
+	}
+	var names []string
+	byName := map[string]*ast.FuncDecl{}
+	for o, fd := range decls {
+		if renders[o] && !base[o] {
+			names = append(names, funcKey(gp, fd))
+			byName[funcKey(gp, fd)] = fd
+		}
+	}
+	sort.Strings(names)
+	for _, name := range names {
+		fd := byName[name]
+		sig, _ := info.Defs[fd.Name].Type().(*types.Signature)
+		if sig == nil || sig.Results().Len() == 0 || !isErrorType(sig.Results().At(sig.Results().Len()-1).Type()) {
+			continue
+		}
+		first := -1
+		for i, st := range fd.Body.List {
+			if callsRendering(st) {
+				first = i
+				break
+			}
+		}
+		if first < 0 {
+			continue
+		}
+		key := name + ": no return before the first rendering statement reports success"
+		bad, unclear := token.NoPos, token.NoPos
+		var stack []ast.Node
+		for _, st := range fd.Body.List[:first] {
+			ast.Inspect(st, func(n ast.Node) bool {
+				if n == nil {
+					stack = stack[:len(stack)-1]
+					return true
+				}
+				defer func() { stack = append(stack, n) }()
+				if _, isLit := n.(*ast.FuncLit); isLit {
+					return true
+				}
+				for _, anc := range stack {
+					if _, isLit := anc.(*ast.FuncLit); isLit {
+						return true
+					}
+				}
+				ret, ok := n.(*ast.ReturnStmt)
+				if !ok {
+					return true
+				}
+				if len(ret.Results) == 0 {
+					unclear = ret.Pos()
+					return true
+				}
+				r := ast.Unparen(ret.Results[len(ret.Results)-1])
+				switch {
+				case isNilExpr(info, r):
+					bad = ret.Pos()
+				case isErrCtorCall(info, r):
+				default:
+					// `return err` under `if err != nil`
+					id, isID := r.(*ast.Ident)
+					guarded := false
+					if isID {
+						for _, anc := range stack {
+							ifs, ok := anc.(*ast.IfStmt)
+							if !ok || !(ret.Pos() >= ifs.Body.Pos() && ret.End() <= ifs.Body.End()) {
+								continue
+							}
+							if be, ok := ast.Unparen(ifs.Cond).(*ast.BinaryExpr); ok && be.Op == token.NEQ {
+								if x, ok := ast.Unparen(be.X).(*ast.Ident); ok && x.Name == id.Name && isNilExpr(info, be.Y) {
+									guarded = true
+								}
+							}
+						}
+					}
+					if !guarded {
+						unclear = ret.Pos()
+					}
+				}
+				return true
+			})
+		}
+		switch {
+		case bad != token.NoPos:
+			c.Fail(rule, key, bad, "this return reports success (nil) although the files this function renders have not been written yet: Generate and the command then announce a complete package that lacks them",
+				"a specification that takes this path (for an early exit on `no terminal definitions`: `grammar x; start = ;`), then list the output directory")
+		case unclear != token.NoPos:
+			c.Undecided(rule, key, unclear, "a return before the rendering statement whose value is not recognisably a non-nil error")
+		default:
+			c.Pass(rule, key, fd.Body.List[first].Pos(), "every earlier return hands back a non-nil error")
+		}
+	}
+}
+
+// isErrCtorCall: fmt.Errorf(...), errors.New(...), or a composite literal / call whose type is an error type other than plain nil.
+func isErrCtorCall(info *types.Info, e ast.Expr) bool {
+	switch v := ast.Unparen(e).(type) {
+	case *ast.CallExpr:
+		if fn, ok := objOf(info, v.Fun).(*types.Func); ok && fn.Pkg() != nil {
+			n := fn.Pkg().Path() + "." + fn.Name()
+			if n == "fmt.Errorf" || n == "errors.New" || strings.HasSuffix(n, "/errors.New") {
+				return true
+			}
+		}
+	case *ast.UnaryExpr:
+		if v.Op == token.AND {
+			if _, ok := ast.Unparen(v.X).(*ast.CompositeLit); ok {
+				return true
+			}
+		}
+	}
+	return false
 }
